@@ -278,6 +278,9 @@ type Association struct {
 	myNextRSN        uint32
 	reconfigs        map[uint32]*chunkReconfig
 	reconfigRequests map[uint32]*paramOutgoingResetRequest
+	// Request sequence number of the newest outgoing reset request of the
+	// peer that has been performed, per stream identifier.
+	performedResetRSN map[uint16]uint32
 
 	// Non-RFC internal data
 	sourcePort              uint16
@@ -3750,6 +3753,19 @@ func (a *Association) resetStreamsIfAny(resetRequest *paramOutgoingResetRequest)
 		a.log.Debugf("[%s] resetStream(): senderLastTSN=%d <= peerLastTSN=%d",
 			a.name, resetRequest.senderLastTSN, a.peerLastTSN())
 		for _, id := range resetRequest.streamIdentifiers {
+			// RFC 6525 sec 5.2.2: a request that has been processed already
+			// (a retransmission, because our response got lost, or a duplicate)
+			// is answered again but must not be performed again: the stream
+			// that lives under the identifier now may be a new one.
+			rsn := resetRequest.reconfigRequestSequenceNumber
+			if performed, ok := a.performedResetRSN[id]; ok && sna32LTE(rsn, performed) {
+				continue
+			}
+			if a.performedResetRSN == nil {
+				a.performedResetRSN = map[uint16]uint32{}
+			}
+			a.performedResetRSN[id] = rsn
+
 			s, ok := a.streams[id]
 			if !ok {
 				continue
